@@ -35,7 +35,10 @@ def refresh():
 
 
 def run_demo(binary, demo):
-    p = subprocess.run([str(binary), str(demo)], stdout=subprocess.PIPE, stderr=subprocess.PIPE, timeout=20, cwd=str(demo.parent))
+    try:
+        p = subprocess.run([str(binary), str(demo)], stdout=subprocess.PIPE, stderr=subprocess.PIPE, timeout=10, cwd=str(demo.parent))
+    except subprocess.TimeoutExpired:
+        return {"stdout": "", "stderr": "", "status": "timeout"}
     return {"stdout": p.stdout.decode(errors="replace"), "stderr": p.stderr.decode(errors="replace"), "status": p.returncode}
 
 
